@@ -458,7 +458,7 @@ def main(argv=None):
     nworkers = args.workers or min(16, os.cpu_count() or 4)
     budget = mod.BUDGET[tier]
     nfam = args.families or budget['families']
-    wall_cap = budget['wall_cap']
+    wall_cap = float(os.environ.get('VERIF_WALL_CAP') or budget['wall_cap'])   # env: testing aid
     total, errors = run_pool(prop, verif_seed, tier, nfam, nworkers, wall_cap)
     harness_errors = list(errors)
 
